@@ -353,10 +353,11 @@ func (f *Func) reachTarget(
 			}
 		}
 
-		// If we're skipping because we have this value already, then
-		// note that we're using this input in the input set.
+		// If we're skipping because we have this value already, there is
+		// nothing to resolve. We must not note it in the input set: a value
+		// that is already present is either an input that was recorded when
+		// its path was chosen or an intermediate value derived from one.
 		if skip {
-			state.InputSet[graph.VertexID(out)] = out
 			continue
 		}
 
